@@ -609,6 +609,180 @@ def rule_spline(chk, prog):
 
 
 # ----------------------------------------------------------------------------
+# rule 7: subset positions vs feature indices in the mapping functions
+# ----------------------------------------------------------------------------
+class IndexSorts:
+    """Two-sorted typing of the integer indices of one mapping function.
+       F   index of a feature (column of the full descriptor matrix X, entry of feature_list)
+       S   position in the gathered subset (column of D = X[:, inds], entry of dims / grid / k0s ..)
+    `np.arange(X.shape[1])[...]`, and whatever is sliced / appended / copied from it, is an array OF
+    feature indices (its own positions are subset positions); `np.arange(len(<such array>))`,
+    `range(D.shape[1])`, `range(len(inds))` produce subset positions; `inds[i]` converts S -> F."""
+
+    KEEP_METHODS = {"copy", "astype", "tolist", "ravel", "flatten"}
+    KEEP_CALLS = {"list", "tuple", "np.array", "np.asarray", "numpy.array", "sorted"}
+    JOIN_CALLS = {"np.append", "np.concatenate", "np.hstack", "numpy.append"}
+
+    def __init__(self, fn):
+        self.fn = fn
+        self.params = set(er.param_names(fn))
+        self.gathered = {}   # local D -> parameter X it was gathered from
+        self.env = {}        # name -> set of sorts {'Farr','Sarr','F','S'}
+        for _ in range(4):
+            self._pass()
+
+    # sizes ---------------------------------------------------------------
+    def size_sort(self, e, at):
+        """'F' for the size of the feature axis, 'S' for the size of the subset, else None"""
+        if isinstance(e, ast.Subscript) and isinstance(e.value, ast.Attribute) and e.value.attr == "shape" \
+                and isinstance(e.slice, ast.Constant) and e.slice.value in (1, -1) and isinstance(e.value.value, ast.Name):
+            nm = e.value.value.id
+            if nm in self.gathered:
+                return "S"
+            if nm in self.params and nm in self.gathered.values():
+                return "F"
+            return None
+        if isinstance(e, ast.Call) and pf.call_name(e) == "len" and e.args:
+            srt = self.sort(e.args[0], at)
+            return "S" if srt in ("Farr", "Sarr") else None
+        if isinstance(e, ast.Name):
+            d = er.reaching_assign(self.fn, e.id, at)
+            if d is not None:
+                return self.size_sort(d.value, d)
+        return None
+
+    # sorts of index-valued expressions ------------------------------------------
+    def sort(self, e, at):
+        if isinstance(e, ast.Name):
+            ss = self.env.get(e.id, set())
+            return next(iter(ss)) if len(ss) == 1 else None
+        if isinstance(e, ast.Call):
+            cn = pf.call_name(e) or ""
+            if cn in ("np.arange", "numpy.arange", "range") and len(e.args) == 1:
+                z = self.size_sort(e.args[0], at)
+                return {"F": "Farr", "S": "Sarr"}.get(z)
+            if isinstance(e.func, ast.Attribute) and e.func.attr in self.KEEP_METHODS:
+                return self.sort(e.func.value, at)
+            if cn in self.KEEP_CALLS and e.args:
+                return self.sort(e.args[0], at)
+            if cn in self.JOIN_CALLS and e.args:
+                parts = e.args[0].elts if isinstance(e.args[0], (ast.List, ast.Tuple)) and len(e.args) == 1 else e.args[:2]
+                ss = {self.sort(p, at) for p in parts} - {None}
+                return next(iter(ss)) if len(ss) == 1 else None
+            if cn in ("combinations", "itertools.combinations", "itertools.product", "product") and e.args:
+                return self.sort(e.args[0], at)   # tuples of the same kind of index
+            return None
+        if isinstance(e, ast.BinOp) and isinstance(e.op, ast.Add):
+            # len(sinds) + np.arange(len(ainds)): positions shifted within the subset
+            for a, b in ((e.left, e.right), (e.right, e.left)):
+                if self.sort(a, at) == "Sarr" and isinstance(b, ast.Call) and pf.call_name(b) == "len":
+                    return "Sarr"
+            return None
+        if isinstance(e, ast.Subscript):
+            base = self.sort(e.value, at)
+            if base in ("Farr", "Sarr"):
+                i = self.sort(e.slice, at) if not isinstance(e.slice, (ast.Slice, ast.Tuple)) else None
+                if i in ("S", "F"):
+                    return base[0]      # an element: a single feature index / subset position
+                return base             # a sub-array of the same kind
+            return None
+        return None
+
+    def _bind(self, name, srt):
+        if srt:
+            self.env.setdefault(name, set()).add(srt)
+
+    def _pass(self):
+        fn = self.fn
+        for n in ast.walk(fn):
+            if isinstance(n, ast.Assign) and len(n.targets) == 1 and isinstance(n.targets[0], ast.Name):
+                t, v = n.targets[0].id, n.value
+                # D = X[:, J] with J an array of feature indices
+                if isinstance(v, ast.Subscript) and isinstance(v.value, ast.Name) and v.value.id in self.params \
+                        and isinstance(v.slice, ast.Tuple) and len(v.slice.elts) == 2 \
+                        and self.sort(v.slice.elts[1], n) == "Farr":
+                    self.gathered[t] = v.value.id
+                self._bind(t, self.sort(v, n))
+            elif isinstance(n, (ast.For, ast.comprehension)):
+                it = n.iter
+                srt = self.sort(it, n if isinstance(n, ast.For) else it)
+                if srt in ("Farr", "Sarr"):
+                    inner = srt
+                    # elements of combinations(...) are tuples of indices, elements of an index array are indices
+                    if isinstance(it, ast.Call) and (pf.call_name(it) or "").split(".")[-1] in ("combinations", "product"):
+                        elem = inner
+                    else:
+                        elem = inner[0]
+                    if isinstance(n.target, ast.Name):
+                        self._bind(n.target.id, elem)
+
+    # uses -----------------------------------------------------------------
+    def uses(self):
+        """(container text, axis) -> list of (sort 'S'|'F', node)"""
+        out = {}
+        for n in ast.walk(self.fn):
+            if not isinstance(n, ast.Subscript) or not isinstance(n.value, (ast.Name, ast.Attribute)):
+                continue
+            elts = n.slice.elts if isinstance(n.slice, ast.Tuple) else [n.slice]
+            for ax, ix in enumerate(elts):
+                if isinstance(ix, ast.Slice):
+                    ix = ix.lower
+                    if ix is None:
+                        continue
+                srt = self.sort(ix, n)
+                if srt is None:
+                    continue
+                out.setdefault((pf.src(n.value), ax), []).append((srt[0], n))
+        return out
+
+
+def rule_index_space(chk, prog):
+    mt = prog.module(MT)
+    funcs = []
+    for name, fn in mt.functions.items():
+        ix = IndexSorts(fn)
+        if ix.gathered:
+            funcs.append((name, fn, ix))
+    if len(funcs) < 2:
+        raise core.AnalysisError("fewer than 2 mapping functions gather a feature subset `D = X[:, inds]` in %s" % MT)
+    groups = {}
+    for name, fn, ix in funcs:
+        for (key, ax), lst in ix.uses().items():
+            root = key.split(".")[0].split("[")[0]
+            shared = root in ix.params          # caller-provided containers mean the same thing in every function
+            gk = ("*" if shared else name, key, ax)
+            for srt, node in lst:
+                groups.setdefault(gk, []).append((srt, node, name, shared, ix))
+    for (scope, key, ax), lst in sorted(groups.items(), key=lambda kv: (kv[0][1], kv[0][0], kv[0][2])):
+        sorts = {x[0] for x in lst}
+        where = "all mapping functions" if scope == "*" else scope
+        inst = "%s: axis %d of `%s` is indexed in one index space" % (where, ax, key)
+        if len(sorts) == 1:
+            chk.ok("index-space", inst, detail="%s (%d use(s))" % (
+                {"S": "subset positions", "F": "feature indices"}[next(iter(sorts))], len(lst)))
+            continue
+        shared = lst[0][3]
+        gathered_from = set()
+        for x in lst:
+            gathered_from |= set(x[4].gathered.values())
+        if shared or key in gathered_from:
+            blame = [x for x in lst if x[0] == "S"]   # a caller-provided container cannot be in subset order:
+        else:                                         # the subset is only formed inside the function
+            ns = sum(1 for x in lst if x[0] == "S")
+            blame = [x for x in lst if x[0] == ("S" if ns * 2 < len(lst) else "F")]
+        srt, node, fname, _, _ = blame[0]
+        other = next(x for x in lst if x[0] != srt)
+        names = {"S": "a position in the gathered subset", "F": "a feature index"}
+        chk.violation("index-space", MT, fname, pf.src(node), node.lineno,
+                      "`%s` is indexed here by %s, but by %s in `%s` (%s): the two index spaces coincide only when the "
+                      "subset is the leading block of features; %s" % (
+                          key, names[srt], names[other[0]], pf.src(other[1]), other[2],
+                          "convert with `inds[...]`" if srt == "S" else "index with the loop position instead"),
+                      instance=inst)
+    chk.count("mapping functions typed", len(funcs))
+
+
+# ----------------------------------------------------------------------------
 # rule 6: order-n scale multiplies the terms of order n
 # ----------------------------------------------------------------------------
 def _comb(n, k):
@@ -812,6 +986,10 @@ def _analyse_own(chk):
     chk.guard(rule_rbf_extract, prog, tree)
     chk.guard(rule_dispatch, prog)
     chk.guard(rule_spline, prog)
+    chk.rule("index-space", "mapping functions: no container is indexed both by subset positions and by feature "
+                            "indices (two-sorted index typing; caller-provided containers are feature-indexed)")
+    chk.guard(rule_index_space, prog)
+    chk.floor("index-space", 6, "containers indexed by a typed index in the two mapping functions")
     chk.rule("scale-order", "arbf_args lays out one scale per index set by ascending order; the mapper reads that "
                             "layout unshifted")
     chk.guard(rule_scale_order, prog)
@@ -918,6 +1096,18 @@ def mutants(tree):
                "_add_deriv(outd + iloc, xin + iloc, xctrl + iloc, exps, tot, nfeat);", expect="grad-pairing"),
         Mutant("spin kernel: fused inline gradient loop with a wrong operand", MU_C_REL, fn=_fuse_spin_gradient_wrong,
                expect="grad-pairing"),
+        Mutant("additive mapper: bounds looked up by subset position", MT, "bound=feature_list[inds[i]].bounds,",
+               "bound=feature_list[i].bounds,", count=2, expect="index-space"),
+        Mutant("simple mapper: bounds looked up by subset position", MT, "bound=feature_list[inds[i]].bounds,",
+               "bound=feature_list[i].bounds,", count=1, expect="index-space"),
+        Mutant("simple mapper: length scale looked up by feature index", MT,
+               "                D[:, i],\n                length_scale[i],\n                density=rbf_density,",
+               "                D[:, i],\n                length_scale[inds[i]],\n                density=rbf_density,",
+               expect="index-space"),
+        Mutant("additive mapper: grid dimension taken from the ungathered matrix", MT,
+               "                D[:, i],\n                length_scale[i],\n                density=density,",
+               "                X[:, i],\n                length_scale[i],\n                density=density,",
+               expect="index-space"),
         Mutant("mapper: scale shifted before the constant term is formed", MT, fn=_shift_scale_early,
                expect="scale-order"),
         Mutant("arbf_args: order-2 block uses the order-1 scale", KN,
